@@ -814,7 +814,12 @@ class find_pairs_bph(_FindPairsBase):
         {"when": "after", "at": "donor_residue, acceptor_residue = (residue_i, residue_j)", "label": "donor-is-row-i", "do": ["let DROW = i", "let CROW = j"]},
         {"when": "after", "at": "donor_residue, acceptor_residue = (residue_j, residue_i)", "label": "donor-is-row-j", "do": ["let DROW = j", "let CROW = i"]},
         {"when": "after", "at": "base_phosphate_pairs.append(", "label": "a-recorded-base-phosphate-contact",
-         "do": [f"assert bb_contact({_TBL}, coordinates, {_D_ROW}, {_C_ROW}, PHOSPHATE_OX)",
+         "do": [f"assert ((0 <= DROW and DROW < CROW and CROW < len(coordinates)) or (0 <= CROW and CROW < DROW and DROW < len(coordinates)))",
+                f"assert sqd(coordinates[DROW], coordinates[CROW]) <= D_HB * D_HB",
+                f"assert is_don({_S}[GA[DROW]], GN[DROW]) and not is_acc({_S}[GA[DROW]], GN[DROW])",
+                f"assert GN[CROW] in PHOSPHATE_OX",
+                f"assert not same_res_id(ratom({_TBL}, DROW), ratom({_TBL}, CROW))",
+                f"assert bb_contact({_TBL}, coordinates, {_D_ROW}, {_C_ROW}, PHOSPHATE_OX)",
                 "let UK = dstore(dstore(UK, atom_i, 0), atom_j, 0)", "let UB = dstore(dstore(UB, atom_i, len(PD)), atom_j, len(PD))",
                 f"let PD = snoc(PD, {_D_ROW})", f"let PC = snoc(PC, {_C_ROW})"]},
         {"when": "after", "at": "base_ribose_pairs.append(", "label": "a-recorded-base-ribose-contact",
